@@ -58,7 +58,22 @@ def run_frame_contract(hv, actuator, print_result=False):
 
 
 RUN_CONTRACT = {Actuator.run: EffectContract("Actuator.run", run_frame_contract)}
-KINDS = {"quick": [{"kind": "uni"}, {"kind": "uni+squeeth"}], "thorough": [{"kind": "uni"}, {"kind": "uni+squeeth"}, {"kind": "uni+uni"}]}
+KINDS = {"quick": [{"kind": "uni"}, {"kind": "uni+squeeth"}, {"kind": "uni", "entry": "global"}, {"kind": "uni", "entry": "param"}],
+         "thorough": [{"kind": k, "entry": e} for k in ("uni", "uni+squeeth", "uni+uni") for e in ("_start", "global", "param")]}
+
+
+def _enter(S, config, data, strategy, bk):
+    """the three entry points a worker can be started through: _start itself, _start_with_param_data, and _start_with_global_data
+    (forked workers: the data is the module global, and ONE unpickled configuration object can serve several tasks of a chunk)"""
+    e = S.shape.get("entry", "_start")
+    if e == "global":
+        backtest.global_data = data
+        backtest._start_with_global_data(config, strategy, bk)
+    elif e == "param":
+        backtest._start_with_param_data(config, data, strategy, bk)
+    else:
+        backtest._start(config, data, strategy, bk)
+
 
 
 @proof("C19", "_start/writes-nothing-shared-between-runs", strength="S", shapes=KINDS, contracts=RUN_CONTRACT, config={"native_samples": {"quick": 1, "thorough": 2}})
@@ -66,9 +81,9 @@ def po_start(S):
     from fixtures import backtest_fixture as fx
     config, data, bk = fixture(S.shape["kind"])
     s0 = dump(shared_state(config, data))
-    backtest._start(config, data, fx.AddAtFirstBar(1000) if S.mode == "native" and S.shape["kind"] == "uni" else fx.Idle(), bk)
+    _enter(S, config, data, fx.AddAtFirstBar(1000) if S.mode == "native" and S.shape["kind"] == "uni" else fx.Idle(), bk)
     S.unchanged("first-run-leaves-configuration-and-data-untouched", s0, dump(shared_state(config, data)))
-    backtest._start(config, data, fx.Idle(), bk)
+    _enter(S, config, data, fx.Idle(), bk)
     S.unchanged("second-run-leaves-configuration-and-data-untouched", s0, dump(shared_state(config, data)))
 
 
@@ -89,3 +104,25 @@ def po_manager(S):
     together = fx.run_manager([mk() for _, mk in mks])
     for (name, _), res in zip(mks, together):
         S.check(f"strategy-{name}:result==alone", res == alone[name])
+
+
+@proof("C19", "manager(sequential,option-market)/each-strategy==running-it-alone;shared-order-book-intact(bounded)", strength="B",
+       config={"bounded_samples": {"quick": 4, "thorough": 24}})
+def po_manager_options(S):
+    """bounded stand-in: strategies that trade the SAME instrument of one shared hourly order-book frame through BacktestManager
+    (in-process path): each gets the fills, cash, positions and net value it gets alone, in either order, and the shared frame's
+    order-book cells are what they were"""
+    from fixtures import backtest_fixture as fx
+    a1 = S.int("contracts_1", 1, 60)
+    a2 = S.int("contracts_2", 1, 60)
+    order = S.bool("reverse_order")
+    mks = [("taker", lambda: fx.BuyOption(fx.OPT_A, a1)), ("probe", lambda: fx.BuyOption(fx.OPT_A, a2)), ("bystander", lambda: fx.BuyOption(fx.OPT_B, 10))]
+    alone = {}
+    for name, mk in mks:
+        alone[name] = fx.run_manager_options([mk()])[0][0]
+    if order:
+        mks = list(reversed(mks))
+    together, book0, book1 = fx.run_manager_options([mk() for _, mk in mks])
+    for (name, _), res in zip(mks, together):
+        S.check(f"strategy-{name}:result==alone", res == alone[name])
+    S.check("shared-order-book-frame-unchanged-by-the-runs", book0 == book1)
